@@ -430,7 +430,7 @@ def c06_accepted(t, length, maxlen, with_words, mode, state, S=2, L=2):
     for M, w in zip(mats, words):
         if not np.array_equal(M, rep._word_value(w)):
             return False
-    if not with_words:
+    if True:
         m2 = rep.automaton_accepted(A, length, maxlen=maxlen, with_words=False, **kw)
         if len(m2) != len(mats) or not np.array_equal(np.asarray(m2), np.asarray(mats)):
             return False
